@@ -1,31 +1,67 @@
 #!/usr/bin/env python3
 """Builds /verif/seeded/SUMMARY.md from seeded/*/meta.json and check-*.out."""
 import glob, json, os, re
-rows = []
-for d in sorted(glob.glob('/verif/seeded/*/')):
+
+HERE = '/verif/seeded'
+
+
+def outcome_cells(d, equivalent):
+    cells = []
+    for f in sorted(glob.glob(os.path.join(d, 'check-*.out'))):
+        prop = re.search(r'check-(C\d\d)\.out', f).group(1)
+        txt = open(f, errors='replace').read()
+        vio = re.findall(r'^VIOLATION property=\S+ replay=\S+ obligation=(\S+)(.*)$', txt, re.M)
+        und = len(re.findall(r'^UNDECIDED', txt, re.M))
+        if equivalent:
+            if vio:
+                cells.append(f"{prop}: **ALARM** " + ", ".join(v[0] for v in vio[:3]))
+            elif und:
+                cells.append(f"{prop}: undecided ({und})")
+            else:
+                cells.append(f"{prop}: quiet")
+        elif vio:
+            cells.append(f"{prop}: " + ", ".join(
+                v[0].replace('kani/', '').replace('verus/', 'verus:')
+                + (' (no-failing-input-found)' if 'no-failing-input-found' in v[1] else '') for v in vio[:4]))
+        else:
+            cells.append(f"{prop}: not caught" + (f" ({und} undecided)" if und else ""))
+    return cells
+
+
+seeds, eqs = [], []
+for d in sorted(glob.glob(HERE + '/*/')):
     name = os.path.basename(d.rstrip('/'))
     mp = os.path.join(d, 'meta.json')
     if not os.path.exists(mp):
         continue
     meta = json.load(open(mp))
-    what = meta.get('what', '')
-    caught = []
-    for f in sorted(glob.glob(os.path.join(d, 'check-*.out'))):
-        prop = re.search(r'check-(C\d\d)\.out', f).group(1)
-        txt = open(f).read()
-        vio = re.findall(r'^VIOLATION property=\S+ replay=\S+ obligation=(\S+)(.*)$', txt, re.M)
-        und = len(re.findall(r'^UNDECIDED', txt, re.M))
-        if vio:
-            caught.append(f"{prop}: " + ", ".join(v[0].replace('kani/', '').replace('verus/', 'verus:') + (' (no-failing-input-found)' if 'no-failing-input-found' in v[1] else '') for v in vio[:4]))
-        else:
-            caught.append(f"{prop}: not caught" + (f" ({und} undecided)" if und else ""))
-    rows.append((name, meta.get('property'), what, caught))
-with open('/verif/seeded/SUMMARY.md', 'w') as f:
+    if meta.get('equivalent'):
+        eqs.append((name, meta, outcome_cells(d, True)))
+    else:
+        seeds.append((name, meta, outcome_cells(d, False)))
+
+readme = {}
+rp = os.path.join(HERE, 'EQ-README.md')
+if os.path.exists(rp):
+    for l in open(rp):
+        m = re.match(r"- eq-(\d+)\.diff: (.*?)\. Equivalence", l)
+        if m:
+            readme[m.group(1)] = m.group(2)[:300]
+
+with open(HERE + '/SUMMARY.md', 'w') as f:
     f.write("# Seeded changes and the checks that catch them\n\n")
     f.write("Each change was written by a sub-agent that saw only the property text and a scratch worktree, and was confirmed "
             "(existing suite passes with it; demo fails with it, passes without it). `check-<prop>.out` next to each patch is the "
             "output of `./check <prop> --tier quick` with the patch applied.\n\n")
     f.write("| seed | breaks | change | caught by |\n|---|---|---|---|\n")
-    for name, prop, what, caught in rows:
-        f.write(f"| {name} | {prop} | {what} | " + "<br>".join(caught) + " |\n")
-print(open('/verif/seeded/SUMMARY.md').read())
+    for name, meta, cells in seeds:
+        f.write(f"| {name} | {meta.get('property')} | {meta.get('what', '')} | " + "<br>".join(cells) + " |\n")
+    f.write("\n## Behaviour-preserving refactorings (no check may raise an alarm)\n\n")
+    f.write("Ten refactorings written by a sub-agent (`EQ-README.md` argues why each is an exact equivalence; the existing "
+            "suite passes with each). `quiet` = exit 0, every obligation discharged on the refactored tree; `undecided` = "
+            "exit 2, some obligation could not be decided on the new shape of the code (never an alarm); **ALARM** = a "
+            "VIOLATION line, i.e. a false alarm of the machinery.\n\n")
+    f.write("| patch | refactoring | outcome per property |\n|---|---|---|\n")
+    for name, meta, cells in eqs:
+        f.write(f"| {name} | {readme.get(name[3:], '')} | " + "<br>".join(cells) + " |\n")
+print(open(HERE + '/SUMMARY.md').read()[-3000:])
